@@ -24,6 +24,7 @@ func main() {
 	maxPaths := flag.Int("max-paths", 100000, "path budget")
 	params := flag.String("params", "", "k=v,k=v")
 	verbose := flag.Bool("v", false, "verbose")
+	noop := flag.String("noop", "", "extra no-op package prefixes, comma separated")
 	flag.Parse()
 	ov, err := gosym.Overlay(*repo, *hroot)
 	if err != nil {
@@ -41,6 +42,9 @@ func main() {
 		os.Exit(3)
 	}
 	cfg := gosym.Config{Entry: *entry, Workers: *workers, MaxPaths: *maxPaths, Params: map[string]int{}, Verbose: *verbose, Preempt: -1}
+	if *noop != "" {
+		cfg.NoopPkgs = strings.Split(*noop, ",")
+	}
 	for _, kv := range strings.Split(*params, ",") {
 		if kv == "" {
 			continue
